@@ -127,6 +127,11 @@ func runSelftests(cfg *PropConfig, repo, verif, work string) ([]map[string]any, 
 			var failed []string
 			for _, ob := range rr.obs {
 				if ob.Cover {
+					// a refuted cover (a `possible at` claim, or a precondition/invariant that became
+					// unsatisfiable) is a violation in the check, so it is a detection here
+					if ob.Result != "sat" && ob.Result != "unknown" && ob.Result != "timeout" {
+						failed = append(failed, ob.Name+"=refuted("+ob.Result+")")
+					}
 					continue
 				}
 				if ob.Result != "unsat" {
